@@ -415,21 +415,40 @@ class GateStream(Stream):
         count = 0
         while tier != "quick" or count < 700:
             count += 1
-            if rng.random() < 0.6:
-                host = rng.choice(g.HOSTS)[0]
-            else:
-                host = gen_host(rng, default)
-            yield {
-                "cmd": rng.choice(g.CMDS),
-                "secret": rng.choice(SECRET_VARIANTS[:3] if rng.random() < 0.7 else SECRET_VARIANTS),
-                "host": opt(hs, host),
-                "cookie": rng.choice(g.COOKIES),
-                "frame": rng.choice(g.FRAMES),
-                "evalex": rng.random() < 0.7,
-                "pin": rng.random() < 0.7,
-                "dbg": rng.choice(DEBUGGER_VARIANTS),
-                "pre": rng.choice([0, 0, 0, 0, 0, 5, 10, 11, 12, 260]),
+            def rnd_host():
+                if rng.random() < 0.6:
+                    return rng.choice(g.HOSTS)[0]
+                return gen_host(rng, default)
+
+            rnd = {
+                "cmd": lambda: rng.choice(g.CMDS),
+                "secret": lambda: rng.choice(SECRET_VARIANTS[:3] if rng.random() < 0.7 else SECRET_VARIANTS),
+                "host": lambda: opt(hs, rnd_host()),
+                "cookie": lambda: rng.choice(g.COOKIES),
+                "frame": lambda: rng.choice(g.FRAMES),
+                "evalex": lambda: rng.random() < 0.6,
+                "pin": lambda: rng.random() < 0.6,
+                "dbg": lambda: rng.choice(DEBUGGER_VARIANTS),
+                "pre": lambda: rng.choice([0, 0, 0, 5, 10, 11, 12, 260]),
             }
+            if rng.random() < 0.35:
+                case = {k: f() for k, f in rnd.items()}
+            else:
+                # start from a request that passes every gate, then break zero to two conjuncts
+                case = {
+                    "cmd": rng.choice(["eval", "eval", "console", "pinauth-right", "pinauth-wrong", "printpin"]),
+                    "secret": "right",
+                    "host": hs(rng.choice(["localhost", "sub.localhost", "127.0.0.1", "localhost:5000"])),
+                    "cookie": "valid",
+                    "frame": "known",
+                    "evalex": True,
+                    "pin": rng.random() < 0.7,
+                    "dbg": "yes",
+                    "pre": 0,
+                }
+                for k in rng.sample(sorted(rnd), rng.choice([0, 1, 1, 1, 2])):
+                    case[k] = rnd[k]()
+            yield case
 
     def _run(self, case):
         import json
